@@ -46,7 +46,7 @@ def plan(ctx):
     for nm in sorted(R.NOT_MODELLED):
         uncovered.append(f"builtin {nm!r} is outside the reference semantics (nondeterministic / regex / formatting): see C19, C05")
     for i, text in enumerate(h.TEMPLATES):
-        obs.append(Obligation(f"template.t{i}", "xh", "c07", "template", param={"t": i}, timeout=T * 2,
+        obs.append(Obligation(f"template.t{i}", "xh", "c07", "template", param={"t": i}, timeout=T * 2, extra=({"keep_lru_cache": True} if i >= h.REAL_CACHES_FROM else None),
                               bounds="host ints a (-4..4), b, c symbolic, string s from 3 samples, host list length 0..3",
                               desc=f"SqParser.eval({text!r}) vs reference interpreter on the same tree: value, error class, names afterwards, ops charged"))
     if not quick:
